@@ -199,7 +199,7 @@ def gen_mdoc(rng, n, cls="plain", section_id="ZValue", scheme=None, ties=False, 
                     kd = str(rng.choice(["int", "float", "neg"]))
                 elif kd == "mixed_all":
                     kd = str(rng.choice(["int", "float", "neg", "text", "special", "pair"]))
-                if cls == "expfloat" and rng.random() < 0.25:
+                if (cls == "expfloat" and rng.random() < 0.25) or (cls == "values" and rng.random() < 0.03):
                     kd = "expfloat"
                 v = gen_value(rng, kd)
             items.append((k, v))
@@ -210,27 +210,8 @@ def gen_mdoc(rng, n, cls="plain", section_id="ZValue", scheme=None, ties=False, 
               "blank_between": int(rng.choice([1, 1, 1, 2, 0])), "ws_lines": bool(rng.random() < 0.2),
               "tight_eq": bool(hostile and rng.random() < 0.2), "pad_values": bool(hostile and rng.random() < 0.3),
               "final_newline": bool(rng.random() < 0.85), "trailing_blank": bool(rng.random() < 0.7)}
-    if not allow_exp:
-        _assert_no_exp(header, sections)
     return {"header": header, "titles": titles, "section_id": section_id, "sections": sections, "layout": layout,
             "tilts": [float(x) for x in tilts], "scheme": scheme, "with_prior": with_prior and "PriorRecordDose" in keys}
-
-
-def _has_exp(text):
-    t = text.strip()
-    if t.replace(".", "", 1).isdigit() and not t.isdigit():
-        return "e" in repr(float(t))
-    return False
-
-
-def _assert_no_exp(header, sections):
-    for _, v in header:
-        if _has_exp(v):
-            raise AssertionError("generator produced an exponent-repr float outside the expfloat class: %r" % v)
-    for s in sections:
-        for k, v in s["items"]:
-            if k != "TiltAngle" and _has_exp(v):
-                raise AssertionError("generator produced an exponent-repr float outside the expfloat class: %r" % v)
 
 
 def render_mdoc(st):
@@ -384,10 +365,6 @@ def first_row_diff(got, exp):
                 return {"what": "cell", "row": i, "column": c, "got": list(g[c]), "expected": list(e[c])}
     return None
 
-
-def exp_float_mechanism(g, e):
-    """known mechanism F1: a float whose repr has an exponent came back as the text of that repr"""
-    return e[0] == "n" and isinstance(e[1], float) and g[0] == "s" and g[1] == repr(e[1]) and "e" in repr(e[1])
 
 
 # ================================================================================================
@@ -904,7 +881,7 @@ def compare_frame(df, exp, dropped_absent=True):
     return None
 
 
-def compare_star(path, df, exp):
+def compare_star(path, df, exp, extra_ok=()):
     """written STOPGAP wedge list (tokenised independently) vs expectation -> None or witness"""
     try:
         blocks = star.tokenize(open(path, "rb").read().decode("utf-8"))
@@ -913,7 +890,7 @@ def compare_star(path, df, exp):
     if len(blocks) != 1 or blocks[0]["name"] != "data_stopgap_wedgelist":
         return {"what": "block name", "got": [b["name"] for b in blocks]}
     b = blocks[0]
-    if sorted(b["labels"]) != sorted(exp):
+    if sorted(lab for lab in b["labels"] if lab not in extra_ok) != sorted(exp):
         return {"what": "labels", "file": b["labels"], "expected": sorted(exp)}
     if isinstance(df, pd.DataFrame) and b["labels"] != [str(c) for c in df.columns]:
         return {"what": "label order differs from the returned table", "file": b["labels"], "table": [str(c) for c in df.columns]}
